@@ -144,7 +144,19 @@ func genbankDefinitionParser(gb *GenBank, depth int) pars.Parser {
 func genbankAccessionParser(gb *GenBank, depth int) pars.Parser {
 	parser := genbankGenericFieldParser("ACCESSION", depth)
 	return parser.Map(func(result *pars.Result) error {
-		gb.Fields.Accession = string(result.Token)
+		s := string(result.Token)
+		// A sliced record carries its window as " REGION: a..b".
+		if i := strings.Index(s, " REGION: "); i >= 0 {
+			if loc, err := gts.AsLocation(s[i+len(" REGION: "):]); err == nil {
+				switch v := loc.(type) {
+				case gts.Ranged:
+					gb.Fields.Region, s = gts.Segment{v.Start, v.End}, s[:i]
+				case gts.Between:
+					gb.Fields.Region, s = gts.Segment{int(v), int(v)}, s[:i]
+				}
+			}
+		}
+		gb.Fields.Accession = s
 		return nil
 	})
 }
